@@ -143,6 +143,18 @@ def run(rep, tier):
                 kind = "mutability check after gate"
             ok = bool(post_checks) and all(body.must_pass(post_checks, [b]) for b in eff_blocks)
             rep.ob("R06.1", "check-after-gate|%s" % name, ok, "%s must dominate every effect site" % kind, f.file + ":%d" % f.line)
+            if kind.startswith("lifecycle") and not _transitions_to(prog, C, body, "LIFECYCLE_DELETING"):
+                # an entry admitted on lifecycle alone (close) still must not write through a handle that was
+                # read-only when it was called: some read of the read-only flags has to decide before the effects.
+                # (Deletion is the database's call and is refused there on a read-only database: R06.7.)
+                ro = [e for e in body.calls_named(r"Atomic::<bool>::(load|swap|fetch_or|compare_exchange)$")
+                      if {"read_only", "database_read_only"} & anda.recv_fields(body, e) and _flows_to_switch(body, e)]
+                rb = {e.block for e in ro}
+                ok = bool(rb) and all(body.must_pass(rb, [b]) for b in eff_blocks)
+                rep.ob("R06.1", "read-only-respected|%s" % name, ok,
+                       "admitted on lifecycle alone: the entry writes (%s) without ever reading read_only / database_read_only, "
+                       "so a handle that is read-only (itself or through its database) is flushed by it" % ", ".join(
+                           sorted({e.name.rsplit("::", 1)[1] for e in evs}))[:160], f.file + ":%d" % f.line)
         else:
             ok = bool(check_blocks) and all(body.must_pass(check_blocks, [b]) for b in eff_blocks)
             rep.ob("R06.1", "check|%s" % name, ok, "&mut entry: mutability check must dominate every effect site", f.file + ":%d" % f.line)
@@ -181,6 +193,39 @@ def run(rep, tier):
                    "suspension points not covered by an armed cancel guard: %s" % "; ".join(
                        "bb%d(line %d: %s)" % (y, body.term(y).get("ln", 0), why) for y, why in bad)[:400],
                    f.file + ":%d" % f.line)
+
+    # ------------------------------------------------------------------ R06.1 inner waits (helpers included)
+    # A call that passed admission and then queues on an inner lock (document stripe, watermark gate,
+    # extension gate) is "already queued when the transition began": another shared-lease holder may poison the
+    # handle, or set_read_only may return, while it waits.  Every effect after the wait needs its own check.
+    INNER_RX = re.compile(r"tokio::sync::(mutex::Mutex::<T>::lock|rwlock::RwLock::<T>::(read|write)(_owned)?)$")
+    ninner = 0
+    for f in sorted(C.methods, key=lambda f: f.path):
+        body = prog.async_body(f) or f
+        if not body.coroutine:
+            continue
+        waits = [e for e in body.calls() if INNER_RX.search(e.callee or "") and "operation_gate" not in anda.recv_fields(body, e)]
+        if not waits:
+            continue
+        evs = effect_events(prog, body, all_eff, set())
+        checks = C.check_events(body)
+        for i, w in enumerate(waits):
+            after = body.reachable_from([w.block])
+            late = sorted({e.block for e in evs if e.block in after and e.block != w.block})
+            if not late:
+                continue
+            ninner += 1
+            post = {c.block for c in checks if c.block != w.block and body.dominates(w.block, c.block)}
+            bad = [b for b in late if not (post and body.must_pass(post, [b]))]
+            fields = sorted(anda.recv_fields(body, w) - {"self"})
+            rep.saw(body, len(late))
+            rep.ob("R06.1", "recheck-after-inner-wait|%s|%s" % (f.path, fields[0] if fields else "lock#%d" % i), not bad,
+                   "after waiting on an inner lock the handle may have been poisoned or made read-only by another "
+                   "lease holder; a mutability check placed after the wait must dominate every later effect site "
+                   "(unchecked effect blocks: %s)" % ", ".join("bb%d(line %d)" % (b, body.term(b).get("ln", 0)) for b in bad[:6]),
+                   w.where())
+    if ninner < 4:
+        raise CheckerFault("anchor missing: inner lock waits followed by effects (found %d, counted 4)" % ninner)
 
     # ------------------------------------------------------------------ R06.3 lifecycle writes (whole crate)
     ALLOWED_TO = {"LIFECYCLE_CLOSING": {"LIFECYCLE_ACTIVE"},
@@ -262,6 +307,15 @@ def run(rep, tier):
     from . import c06_db
     c06_db.run(rep, prog, C, eff, entry_ids)
     return rep.finish(EXPLAIN)
+
+
+def _transitions_to(prog, C, body, const):
+    """The entry (or a helper it calls) stores the named lifecycle constant."""
+    def stores(g):
+        return any((anda.const_def(a)[0] or "").endswith(const) for w in C.lifecycle_writes(g) for a in w.args)
+    if stores(body):
+        return True
+    return any(c.cid in prog.fns and stores(prog.async_body(prog.fns[c.cid]) or prog.fns[c.cid]) for c in body.calls())
 
 
 def _const_name(o, val2name):
